@@ -399,3 +399,18 @@ pub fn os_bytes(s: &std::ffi::OsStr) -> &[u8] {
     use std::os::unix::ffi::OsStrExt;
     s.as_bytes()
 }
+
+// ---------------------------------------------------------------- scratch directory for monitors that run external tools
+
+static SCRATCH: std::sync::OnceLock<std::path::PathBuf> = std::sync::OnceLock::new();
+
+pub fn set_scratch(p: std::path::PathBuf) {
+    let _ = SCRATCH.set(p);
+}
+
+/// a directory private to this process (created on demand; the runner removes /verif/run/<prop> at the next run)
+pub fn scratch() -> std::path::PathBuf {
+    let p = SCRATCH.get().cloned().unwrap_or_else(|| std::env::temp_dir().join(format!("verif-mon-{}", std::process::id())));
+    let _ = std::fs::create_dir_all(&p);
+    p
+}
